@@ -314,3 +314,31 @@ def show_word(w):
     return " ".join(show_sym(s) if not (isinstance(s, tuple) and s[0] == "B" and not isinstance(s[2], tuple))
                     else f"B{s[1]}{'' if s[3]=='LE' else s[3]}" + ("" if s[2] == "*" else "{" + str(s[2]) + "}")
                     for s in w)
+
+
+# ---------------------------------------------------------------------------
+# JSON round trip (for the frozen specification)
+
+def to_json(r):
+    if isinstance(r, frozenset):
+        return {"set": sorted((to_json(x) for x in r), key=repr)}
+    if isinstance(r, tuple):
+        return [to_json(x) for x in r]
+    return r
+
+
+def from_json(j):
+    if isinstance(j, dict) and "set" in j:
+        return frozenset(from_json(x) for x in j["set"])
+    if isinstance(j, list):
+        return tuple(from_json(x) for x in j)
+    return j
+
+
+def strip_payload(r):
+    """('A', n, literal bytes) -> ('A', n, None): compare fixed-size byte blocks by length only"""
+    def f(s):
+        if isinstance(s, tuple) and s[0] == "A":
+            return ev(("A", s[1], None))
+        return ev(s)
+    return subst(r, f)
